@@ -1,5 +1,12 @@
 """Texts for MANIFEST.json (level claims per property)."""
-HOOK_COMMITS = ["ddf86f8", "99b9210"]
+import subprocess as _sp
+def _hooks():
+    try:
+        out = _sp.run(["git", "-C", "/repo", "log", "--format=%h", "--grep=^verif hook"], capture_output=True, text=True).stdout.split()
+        return list(reversed(out))
+    except Exception:
+        return []
+HOOK_COMMITS = _hooks()
 
 _T = "theorem(s) in lean/Mltwist/Props/%s.lean for all inputs the property quantifies over; "
 _N = ("Trusted: Lean kernel + axioms propext/Classical.choice/Quot.sound (audited each run); the statements (reference "
@@ -27,5 +34,31 @@ CLAIMED = {
  "C28": dict(text=_T % "C28" + "Equal <-> structural identity; FindAll = pre-order filter of sub-terms; ReplaceAll = bottom-up map, identity when nothing matches; effect helpers by rfl",
              note=_N, technique="Lean 4 proof by structural induction + correspondence"),
 }
+
+CLAIMED.update({
+ "C02": dict(text=_T % "C02" + "the REGENERATED instruction tables contain exactly the (mnemonic, match, mask) rows of the reference encoding table for both variants and all "
+             "extension subsets (decide +kernel re-check on every run); decoder = reference decoder for all byte strings (short input, unknown, accepted with name, trailing bytes); "
+             "the literal decoder through the C19 matcher equals the specification-style decoder (so NewParser cannot panic)",
+             note=_N + "Instruction tables regenerated from /repo (runtime dump + go/ast translation); reference encodings are my transcription of the ISA manual.",
+             technique="Lean 4 proof over regenerated tables (kernel decide + generic matcher theorem) + correspondence with reference decoder oracle"),
+ "C08": dict(text=_T % "C08" + "basicblock.Parse/NewCode never panic, fail exactly when the entry point or a constant 64-bit target is not an instruction start, and otherwise produce the unique "
+             "partition with exactly the required cut set (model follows the Go binary searches and the insertion shift literally)",
+             note=_N + "sort.Slice / sort.Search modelled by their meaning.", technique="Lean 4 proof (partition characterisation) + correspondence on generated instruction sets"),
+ "C14": dict(text=_T % "C14" + "store preserves the tree invariant and commutes with the byte-map abstraction; load succeeds iff all bytes present, has width w and the little-endian value under every valuation; "
+             "missing/blocks exact and normal; the three 'bug:' panics unreachable; for all histories with addr+w < 2^64. The aliasing clause is a runtime monitor in the harness (partial: Go aliasing outside the value model)",
+             note=_N + "zyedidia interval tree modelled as a sorted association list.", technique="Lean 4 proof (refinement to a byte map) + structural correspondence on write/read histories"),
+ "C15": dict(text=_T % "C15" + "NewBytes fails iff two non-empty blocks overlap; block invariant preserved by Store (overlap panic unreachable); Load/Missing/Blocks exact w.r.t. the byte map for all histories; "
+             "heap-level model with Go slice semantics: no array handed in or out is ever written (no_write_through). Known finding F37 (byte at 2^64-1) excluded by addr+w < 2^64",
+             note=_N + "sort modelled by its meaning; heap model's agreement with the value model is cross-checked at run time, not proved.", technique="Lean 4 proof (value model + slice/heap model) + correspondence with aliasing monitor"),
+ "C19": dict(text=_T % "C19" + "NewMatcher succeeds iff all patterns are well formed and no two patterns (by position) are matched by a common byte string (decidable criterion proved equivalent); "
+             "a built matcher returns exactly the unique matching pattern or none",
+             note=_N + "sort.Slice / sort.Search modelled by their meaning.", technique="Lean 4 proof + correspondence on random pattern sets"),
+ "C25": dict(text=_T % "C25" + "for the REGENERATED tables: the text starts with the mnemonic and two accepted words at one address with identical text have identical lifted effects "
+             "(string-level injectivity of the rendering + per-entry dependence on shown fields only)",
+             note=_N + "fmt verbs modelled by toString; tables regenerated from /repo.", technique="Lean 4 proof over regenerated tables + byte-for-byte correspondence of String()"),
+ "C29": dict(text=_T % "C29" + "format terminates (fuel suffices for every input), every line = indent tabs + 1..chars bytes, non-space content preserved in order, a word is split only if longer than chars; "
+             "the executable oracle is proved sound and complete for the model output",
+             note=_N + "Go int as unbounded integers, strings.Builder as concatenation, bytes not runes.", technique="Lean 4 proof + correspondence incl. precondition violations"),
+})
 
 NOT_YET = {}
